@@ -320,13 +320,13 @@ func c12Sequences(u *vfUnit) {
 	}
 }
 
-// c12StreamLikeFiles: WriteTo on objects that are not regular files (a pipe, an object whose attributes
+// c12StreamLikeFiles: WriteTo on objects that are not regular files (every non-regular type, and an object whose attributes
 // carry no file type at all) and whose reads come back short without being at the end: the transfer must
 // still deliver every byte and the offset must advance by exactly the bytes transferred.
 func c12StreamLikeFiles(u *vfUnit, sc vfSrvCfg, cfgLabel string, store *vfStore, P int, cr, fst bool) {
 	store.CloseErr = nil
 	size := 40*P + 5
-	for i, mode := range []os.FileMode{os.ModeNamedPipe | 0o644, os.ModeIrregular | 0o644, os.ModeCharDevice | os.ModeDevice | 0o600} {
+	for i, mode := range []os.FileMode{os.ModeNamedPipe | 0o644, os.ModeIrregular | 0o644, os.ModeCharDevice | os.ModeDevice | 0o600, os.ModeSocket | 0o644, os.ModeSymlink | 0o777, os.ModeDevice | 0o600} {
 		p := fmt.Sprintf("/streamlike%d", i)
 		content := vfPattern(uint64(50+i), 0, size)
 		store.Put(p, content)
